@@ -374,7 +374,7 @@ impl<'a> FaultDb<'a> {
             count_interner: false,
             panic_at: Cell::new(None),
             budget: Cell::new(DEFAULT_BUDGET),
-            time_limit: Cell::new(std::time::Duration::from_secs(5)),
+            time_limit: Cell::new(std::time::Duration::from_secs(2)),
             deadline: Cell::new(None),
             timed_out: Cell::new(false),
             nonground_coinductive: Cell::new(false),
